@@ -531,9 +531,12 @@ def _categorical_project(prog, res):
             'the clipped tensor is returned',
             'categorical project does not return the clipped tensor')
   roles.check_clip_polarity(prog, res, fn)
-  guards.check_bound_guards(prog, res, fn, [('output_min', 'min'),
-                                            ('output_max', 'max')])
-  res.floor('K3', 2)
+  guards.check_bound_guards(
+      prog, res, fn, [('output_min', 'min'), ('output_max', 'max')],
+      must_run=[('monotonicities', ('allzero', 'nonzero'),
+                 lambda nm: nm.startswith('approximately_project'),
+                 'the ordering projection')])
+  res.floor('K3', 3)
 
 
 def _wiring(prog, res):
